@@ -401,6 +401,22 @@ class MemDatagramTransport(_Scripted, AsyncDatagramTransport):
         self.aclose_calls = 0
         self.stub = StubSocket(sockname, peername, type=_socket.SOCK_DGRAM)
         self._extra = MappingProxyType(socket_tools._get_socket_extra(self.stub, wrap_in_proxy=False))  # type: ignore[arg-type]
+        # flow control like the asyncio datagram transport: a sender waits (after its datagram was queued) while the
+        # transport is not writable
+        self.writable = True
+        self._write_waiters: list[asyncio.Future[None]] = []
+
+    def set_writable(self, flag: bool) -> None:
+        self.writable = flag
+        if flag:
+            waiters, self._write_waiters = self._write_waiters, []
+            for w in waiters:
+                if not w.done():
+                    w.set_result(None)
+
+    @property
+    def pending_senders(self) -> int:
+        return sum(1 for w in self._write_waiters if not w.done())
 
     def feed(self, datagram: bytes | BaseException) -> None:
         self.inbox.append(datagram)
@@ -415,6 +431,10 @@ class MemDatagramTransport(_Scripted, AsyncDatagramTransport):
         w = self._recv_waiter
         if w is not None and not w.done():
             w.set_result(None)
+        waiters, self._write_waiters = self._write_waiters, []
+        for ww in waiters:
+            if not ww.done():
+                ww.set_exception(make_error("ConnectionAbortedError"))
         self._enter("aclose")
         await _yields(int(self.script.get("aclose_yields", 0)))
 
@@ -448,6 +468,14 @@ class MemDatagramTransport(_Scripted, AsyncDatagramTransport):
             raise _utils.error_from_errno(_errno.ECONNABORTED)
         self.sent.append(bytes(data))
         await _yields(self._cyc("send_yield", n, 0))
+        while not self.writable:
+            w = asyncio.get_running_loop().create_future()
+            self._write_waiters.append(w)
+            try:
+                await w
+            finally:
+                if w in self._write_waiters:
+                    self._write_waiters.remove(w)
 
     @property
     def extra_attributes(self) -> Mapping[Any, Callable[[], Any]]:
@@ -531,13 +559,14 @@ class MemDatagramListener(_Scripted, AsyncDatagramListener[tuple]):
 class VerifBackend(AsyncIOBackend):
     """The real asyncio backend, except that listeners/connections are in-memory objects provided by the harness."""
 
-    __slots__ = ("tcp_listeners", "udp_listeners", "connect_transports", "listener_factory_hook", "created", "connect_gate")
+    __slots__ = ("tcp_listeners", "udp_listeners", "connect_transports", "connect_dgram_transports", "listener_factory_hook", "created", "connect_gate")
 
     def __init__(self) -> None:
         super().__init__()
         self.tcp_listeners: list[MemListener] = []
         self.udp_listeners: list[MemDatagramListener] = []
         self.connect_transports: deque[MemStreamTransport] = deque()
+        self.connect_dgram_transports: deque[MemDatagramTransport] = deque()
         self.listener_factory_hook: Callable[[], Coroutine[Any, Any, None]] | None = None
         self.created: list[Any] = []
         self.connect_gate: asyncio.Event | None = None  # when set: create_tcp_connection() waits for it (a slow connect)
@@ -557,6 +586,12 @@ class VerifBackend(AsyncIOBackend):
         self.udp_listeners.append(lst)
         self.created.append(lst)
         return [lst]
+
+    async def create_udp_endpoint(self, remote_host: str, remote_port: int, *, local_address: Any = None, family: int = 0) -> Any:
+        await asyncio.sleep(0)
+        if not self.connect_dgram_transports:
+            raise ConnectionRefusedError(_errno.ECONNREFUSED, "no in-memory datagram transport prepared")
+        return self.connect_dgram_transports.popleft()
 
     async def create_tcp_connection(self, host: str, port: int, *, local_address: Any = None, happy_eyeballs_delay: Any = None) -> Any:
         await asyncio.sleep(0)
